@@ -3,6 +3,7 @@ import Heathcliff.Proofs.C20C
 import Heathcliff.Proofs.C20D
 import Heathcliff.Proofs.C20F
 import Heathcliff.Proofs.C20G
+import Heathcliff.Proofs.C20H
 
 /- Property C20: homomorphic matrix products and convolutions equal plaintext ones, all shapes.
    Property theorems only (proofs are the helper lemmas of Heathcliff/Proofs/C20*.lean). -/
@@ -137,9 +138,35 @@ theorem outputs_encode_decode_block {R : Type} (zero : R) (h : Helper) (y : Nat 
       (∀ db dj, db < ui - li → dj < uj - lj → readAt p (outPos h db dj) = .ok (y ((li + db) * h.od + (lj + dj)))) :=
   HC.c20_encOutput_spec zero h y hfit hib li ui lj uj hb ho
 
-/-- the whole-matrix form (all blocks, both packing modes, through `encodeOutputs` / `decodeOutputs`): kept as a statement; the block
-    form above is proved, the composition over the block loops (and the LWE-packed layout) is covered by the correspondence
-    (`mm_enco`, `mm_dec` model lines and the `mm_outputs_roundtrip` runs through real encryption on every shape) -/
+/-- **Cheetah matrix product, whole matrix** (any commutative ring, ALL shapes, ALL positive block triples with `b·i·o ≤ n`, no LWE
+    packing): encode the inputs (`encodeInputs`) and the weights (`encodeWeights`) with the model's encoders, multiply every
+    (batch block, input block) polynomial with the (input block, output block) polynomial in S[X]/(X^n + 1) and accumulate over the
+    input blocks (`c20_mmEval`: `multiply_plain` + `add_inplace` of `matmul`), decode with the model's decoder (`decodeOutputs`):
+    the result is the plaintext matrix product `x · w`, row major `bs × od`. -/
+theorem cheetah_matmul_whole : type_of% @HC.c20_cheetah_matmul_whole := @HC.c20_cheetah_matmul_whole
+
+/-- ... for the block triple the model's block search returns: every admissible shape (positive dimensions below 2^20, `N ≥ 2`), every
+    objective — `Helper.new` succeeds and the pipeline computes the matrix product -/
+theorem cheetah_matmul_search : type_of% @HC.c20_cheetah_matmul_search := @HC.c20_cheetah_matmul_search
+
+/-- ... modulo t (S = ZMod t): for integer matrices, the decoded result is the matrix product reduced modulo the plain modulus -/
+theorem cheetah_matmul_mod_t : type_of% @HC.c20_cheetah_matmul_mod_t := @HC.c20_cheetah_matmul_mod_t
+
+/-- the index map of `decrypt_outputs_*` over ALL blocks (no LWE packing), for any family of decoded polynomials carrying `F row col`
+    at the read position of every entry: the result is the `bs × od` matrix `F` -/
+theorem decode_outputs_whole : type_of% @HC.c20_decodeOutputs_spec := @HC.c20_decodeOutputs_spec
+
+/-- `encode_inputs_*` / `encode_weights_*` over ALL blocks are total (incl. the `encode_polynomial` size check of the weights) -/
+theorem encode_inputs_whole : type_of% @HC.c20_encodeInputs_ok := @HC.c20_encodeInputs_ok
+theorem encode_weights_whole : type_of% @HC.c20_encodeWeights_ok := @HC.c20_encodeWeights_ok
+
+/-- **outputs: decode ∘ encode = id over the whole matrix** (no LWE packing; every shape, every positive block triple with
+    `b·i·o ≤ n`, any coefficient type) -/
+theorem outputs_encode_decode_whole : type_of% @HC.c20_outputs_encode_decode := @HC.c20_outputs_encode_decode
+
+/-- the whole-matrix form for BOTH packing modes: kept as a statement.  The non-packed half is `outputs_encode_decode_whole`
+    (proved); the LWE-packed layout (`h.pack = true`) is covered by the correspondence (`mm_enco`, `mm_dec` model lines and the
+    `mm_outputs_roundtrip` runs through real encryption on every shape) -/
 def OutputsEncodeDecodeStatement : Prop :=
   ∀ (h : Helper) (y : Nat → Nat), 0 < h.bb → 0 < h.ib → 0 < h.ob → h.bb * h.ib * h.ob ≤ h.n → (h.pack = true → h.n % h.ib = 0) →
     ∃ polys dec, encodeOutputs h 0 y (h.bs * h.od) = .ok polys ∧ decodeOutputs h 0 polys = .ok dec ∧
@@ -182,6 +209,12 @@ example (x w : Nat → ℤ) := cheetah_coeff ⟨3, 4, 2, 3, 1, 2, 8, false⟩ x 
 /-- ... and a partial last input block (columns 3..4 of 4 with input block 3 would be `lj = 3, uj = 4`) -/
 example (x w : Nat → ℤ) := cheetah_coeff ⟨2, 4, 2, 1, 3, 2, 8, false⟩ x w (by decide) 1 2 3 4 0 2 (by decide) (by decide) (by decide)
   0 1 (by decide) (by decide)
+/-- the hypotheses of `cheetah_matmul_whole` are satisfiable (the blocks (3,1,2) of the 3×4·4×2 product at N = 8), and so are those of
+    `cheetah_matmul_search` -/
+example (x w : Nat → ℤ) := cheetah_matmul_whole ⟨3, 4, 2, 3, 1, 2, 8, false⟩ x w (by decide) (by decide) (by decide) (by decide)
+  (by decide) rfl
+example (x w : Nat → ℤ) := cheetah_matmul_search 3 4 2 8 .cipherPlain (by decide) (by decide) (by decide) (by decide)
+  (by decide) x w
 /-- the hypotheses of `conv2d_coeff` are satisfiable: the witness shape of the pinned defect (image 40×4, kernel 3×3, N = 64,
     blocks (1,16,4,1,1)), first tile, last output row / column of the tile -/
 example (x w : Nat → ℤ) := conv2d_coeff ⟨⟨1, 1, 1, 40, 4, 3, 3⟩, 1, 16, 4, 1, 1, 64⟩ x w (by decide) (by decide) (by decide) (by decide)
